@@ -46,7 +46,8 @@ Qed.
    reviewed entry: BeginTransaction returns with the isolation lock held ON PURPOSE (the
    transaction owns it until Commit/Rollback; its release is C17's subject). An unlock missed
    on an error path (a `continue` in a worker loop, an early `return`) adds a row and breaks
-   this lemma. *)
+   this lemma; so does an Unlock reached on a path that has released the mutex already (kind
+   "unlock": the runtime aborts the process with "unlock of unlocked mutex"). *)
 Definition known_lock_holders : list (string * string * string * string) :=
   [("pkg/transaction", "Manager.BeginTransaction", "m.txLock", "return")]%string.
 
